@@ -94,10 +94,12 @@ func c11Source(w *run.Worker, src string, pairs bool) {
 	if err != nil {
 		return // not a program of the grammar as far as this tree is concerned: C07's business
 	}
+	counted := false
 	for _, st := range stmts {
 		ref := refTraversal(st)
-		if len(ref) >= 3 {
+		if len(ref) >= 3 && !counted {
 			w.Nontrivial()
+			counted = true
 		}
 		index := map[parser.Node]int{}
 		for i, rn := range ref {
